@@ -383,8 +383,9 @@ func (c *Ctx) nilDep(fam cbFamily, a *a3, p *packages.Package, fd *ast.FuncDecl,
 }
 
 // nilPassThrough recognises
-//     if f == nil { return x.M(args, nil) }
-//     ... return x.M(args, g)
+//
+//	if f == nil { return x.M(args, nil) }
+//	... return x.M(args, g)
 func (c *Ctx) nilPassThrough(a *a3, info *types.Info, body *ast.BlockStmt, rest []ast.Stmt) bool {
 	if len(body.List) == 0 {
 		return true
